@@ -964,7 +964,7 @@ theorem formatIntList_eq_nil (l : List Nat) (h : formatIntList l = []) : runs (i
       · simp
     cases rs with
     | nil => simp [join] at h; exact hne h
-    | cons b r' => simp [join] at h; exact hne h.1
+    | cons b r' => simp [join] at h
 
 theorem intRanges_of_parse (s : Str) (l : List Nat) (h : parseIntList s = some l) :
     intRanges s = some (runs (isort l)) := by
